@@ -324,3 +324,36 @@ Proof.
   { destruct (code =? 2); [inversion H; auto|]. destruct (code =? 6); [inversion H; auto|discriminate]. }
   destruct E as [-> | ->]; [|rewrite pad_reads]; apply int_reads.
 Qed.
+
+(* ---- a printed number contains no blank and no line break: the cells of a row are separated by the writers' blanks alone
+        (characters of a cell: digits, sign, point, exponent mark) *)
+Definition cell_char (c : Z) : bool := is_digit c || (c =? 45) || (c =? 43) || (c =? 46) || (c =? 101).
+Lemma cell_char_not_blank c : cell_char c = true -> c <> 32 /\ c <> 10 /\ c <> 9.
+Proof. unfold cell_char, is_digit. lia. Qed.
+Lemma digits_w_chars w : forall n acc, Forall (fun c => cell_char c = true) acc -> Forall (fun c => cell_char c = true) (digits_w w n acc).
+Proof.
+  induction w as [|k IH]; intros n acc H; [exact H|]. cbn [digits_w]. apply IH. constructor; [|exact H].
+  pose proof (Z.mod_pos_bound n 10 ltac:(lia)). unfold cell_char, is_digit. lia.
+Qed.
+Lemma digits_f_chars f : forall n acc, 0 <= n -> Forall (fun c => cell_char c = true) acc -> Forall (fun c => cell_char c = true) (digits_f f n acc).
+Proof.
+  induction f as [|k IH]; intros n acc Hn H; cbn [digits_f].
+  - constructor; [|exact H]. pose proof (Z.mod_pos_bound n 10 ltac:(lia)). unfold cell_char, is_digit. lia.
+  - destruct (n <? 10) eqn:C.
+    + constructor; [|exact H]. unfold cell_char, is_digit. lia.
+    + apply IH; [apply Z.div_pos; lia|]. constructor; [|exact H]. pose proof (Z.mod_pos_bound n 10 ltac:(lia)). unfold cell_char, is_digit. lia.
+Qed.
+Lemma digits_chars n : 0 <= n -> Forall (fun c => cell_char c = true) (digits n).
+Proof. intro H. unfold digits. apply digits_f_chars; [exact H|constructor]. Qed.
+Theorem fixed_chars d neg m e : 0 <= m -> Forall (fun c => cell_char c = true) (fixed d neg m e).
+Proof.
+  intro Hm. unfold fixed. pose proof (fixed_int_nonneg d m e Hm) as HN. set (N := fixed_int d m e) in *.
+  assert (0 < 10 ^ Z.of_nat d) by (apply pow10_pos; lia).
+  apply Forall_app. split; [destruct neg; repeat constructor|]. apply Forall_app. split; [apply digits_chars; apply Z.div_pos; lia|].
+  destruct d; [constructor|]. constructor; [reflexivity|]. apply digits_w_chars. constructor.
+Qed.
+Theorem int_chars n : Forall (fun c => cell_char c = true) (int_text n).
+Proof. unfold int_text. destruct (n <? 0) eqn:C; [constructor; [reflexivity|]|]; apply digits_chars; lia. Qed.
+(* padding adds blanks in front only *)
+Theorem pad_shape w t : exists k, pad w t = repeat 32 k ++ t.
+Proof. unfold pad. eexists. reflexivity. Qed.
